@@ -385,6 +385,30 @@ theorem retry_after_failed_save :
     s2.mem.m = ["a.com.".toList] ∧ s2.main = some [headerLine, "a.com.".toList] := by
   decide
 
+
+/-- **A batch is its keys one after the other, however it is chunked**: applying
+`ks₁ ++ ks₂` in one go gives the memory and the count of applying `ks₁` and then
+`ks₂` (so an implementation may release the lock between chunks of any size) —
+and by `successful_call_snapshots` the one snapshot a batch owes is due whenever
+the total count is positive, whatever the size of the last chunk. -/
+theorem batch_chunking_irrelevant (b : Mem) (ks₁ ks₂ : List Str) :
+    (setBatchLocked b (ks₁ ++ ks₂)).1 = (setBatchLocked (setBatchLocked b ks₁).1 ks₂).1 ∧
+    (setBatchLocked b (ks₁ ++ ks₂)).2 = (setBatchLocked b ks₁).2 + (setBatchLocked (setBatchLocked b ks₁).1 ks₂).2 ∧
+    (removeBatchLocked b (ks₁ ++ ks₂)).1 = (removeBatchLocked (removeBatchLocked b ks₁).1 ks₂).1 ∧
+    (removeBatchLocked b (ks₁ ++ ks₂)).2 =
+      (removeBatchLocked b ks₁).2 + (removeBatchLocked (removeBatchLocked b ks₁).1 ks₂).2 := by
+  induction ks₁ generalizing b with
+  | nil => simp [setBatchLocked, removeBatchLocked]
+  | cons k t ih =>
+    simp only [List.cons_append, setBatchLocked, removeBatchLocked]
+    have h1 := ih (setLocked b k).1
+    have h2 := ih (removeLocked b k).1
+    exact ⟨h1.1, by rw [h1.2.1]; omega, h2.2.2.1, by rw [h2.2.2.2]; omega⟩
+
+example : (setBatchLocked {} ["a.com".toList, "b.com".toList, "a.com".toList, "*.c.com".toList]).2 = 4 ∧
+    (removeBatchLocked (setBatchLocked {} ["a.com".toList, "*.c.com".toList]).1 ["*.c.com".toList, "x.com".toList]).2 = 1 := by
+  decide
+
 /-- **A directory reload touches no file**: it reads `local` and a staging file
 but leaves the main file, the staging file of a `persist` in progress, the
 pending snapshots and both version counters exactly as they were. -/
